@@ -294,3 +294,61 @@ Proof.
   destruct (negb _ || _); [discriminate|]. rewrite slice_from_ok; [discriminate|].
   apply (boundary_after_ascii i path 47); [apply wf_utf8_sep_ok; auto|apply rfind_byte_nth; auto|reflexivity].
 Qed.
+
+(** ** URIs built from handles *)
+Definition valid_base (base : str) : Prop := https_from_string base = Some base.
+
+Definition BASE_EX : str := [104; 116; 116; 112; 115; 58; 47; 47; 104; 47].   (* "https://h/" *)
+
+(** Repaired tree: never a panic, for any base and any handle text. *)
+Theorem no_panic_handle_uris : forall base h, rfc8181_uri base h <> PPanic /\ service_uri_for_ca base h <> PPanic.
+Proof. intros. unfold rfc8181_uri, service_uri_for_ca. split; apply of_opt_np. Qed.
+
+(** Findings F16c / F16d on the originally pinned tree: the handle a\b is accepted by Handle::from_str
+    (feature "compat" of rpki allows the backslash) but a backslash is not a URI character, so the
+    [unwrap] panicked. *)
+Example pinned_handle_uri_panics :
+  valid_base BASE_EX /\ handle_from_str [97; 92; 98] = POk [97; 92; 98] /\
+  rfc8181_uri_pinned BASE_EX [97; 92; 98] = PPanic /\ service_uri_for_ca_pinned BASE_EX [97; 92; 98] = PPanic /\
+  rfc8181_uri BASE_EX [97; 92; 98] = PErr /\ service_uri_for_ca BASE_EX [97; 92; 98] = PErr.
+Proof. repeat split. Qed.
+
+Lemma uri_char_of_handle_char b : handle_char b = true -> b <> 92 -> uri_char b = true.
+Proof.
+  unfold handle_char, is_alnum, uri_char.
+  rewrite !orb_true_iff, !andb_true_iff, !N.leb_le, !N.eqb_eq. lia.
+Qed.
+
+Lemma https_from_string_app base x : valid_base base -> (base <> []) -> forallb uri_char x = true ->
+  https_from_string (base ++ x) = Some (base ++ x).
+Proof.
+  unfold valid_base, https_from_string. intros Hb Hne Hx.
+  destruct (forallb uri_char base && _) eqn:E; [|discriminate]. bprop.
+  rewrite forallb_app, H, Hx. cbn [andb].
+  rewrite map_app. unfold starts_with in *. destruct (strip_prefix HTTPS_SCHEME _) as [r|] eqn:Er; [|discriminate].
+  apply strip_prefix_spec in Er. rewrite Er, <- app_assoc.
+  assert (Hs : forall p r', strip_prefix p (p ++ r') = Some r').
+  { induction p as [|a p IH]; intros; cbn [strip_prefix app]; [reflexivity|]. rewrite N.eqb_refl. apply IH. }
+  rewrite Hs. reflexivity.
+Qed.
+
+(** Functional characterisation: handles without a backslash always give the URI. *)
+Theorem handle_uri_ok_without_backslash : forall base s h, valid_base base -> base <> [] ->
+  handle_from_str s = POk h -> existsb (N.eqb 92) h = false ->
+  rfc8181_uri base h = POk (base ++ RFC8181_SEG ++ h ++ [47]) /\
+  service_uri_for_ca base h = POk (base ++ RFC6492_SEG ++ h).
+Proof.
+  intros base s h Hb Hne Hh Hbs. unfold handle_from_str in Hh. destruct (verify_name s) eqn:Ev; [|discriminate].
+  injection Hh as <-. unfold verify_name in Ev. bprop.
+  assert (Hu : forallb uri_char s = true).
+  { apply forallb_forall. intros b Hin. rewrite forallb_forall in H. apply uri_char_of_handle_char; [auto|].
+    intros ->. assert (existsb (N.eqb 92) s = true) by (apply existsb_exists; exists 92; split; [auto|reflexivity]). congruence. }
+  assert (Hu1 : forallb uri_char (RFC8181_SEG ++ s ++ [47]) = true) by (rewrite !forallb_app, Hu; reflexivity).
+  assert (Hu2 : forallb uri_char (RFC6492_SEG ++ s) = true) by (rewrite !forallb_app, Hu; reflexivity).
+  unfold rfc8181_uri, service_uri_for_ca.
+  rewrite (https_from_string_app base _ Hb Hne Hu1), (https_from_string_app base _ Hb Hne Hu2). split; reflexivity.
+Qed.
+
+Example handle_uri_ok_without_backslash_nonvacuous :
+  valid_base BASE_EX /\ handle_from_str [97; 47; 98] = POk [97; 47; 98] /\ existsb (N.eqb 92) [97; 47; 98] = false.
+Proof. repeat split. Qed.
